@@ -701,7 +701,7 @@ func (c *nxCluster) snapshotWorker(h *nxHost) {
 	if h.pipe.recover {
 		h.pipe.recover = false
 		if req, ok := n.ss.getRecoverReq(); ok {
-			if err := w.handle(job{task: req, node: n, instanceID: n.instanceID, shardID: nxShard}); err != nil {
+			if err := w.handle(job{task: req, node: n, shardID: nxShard}); err != nil {
 				c.fail("replica %d: recover job error %v", h.id, err)
 			}
 		}
@@ -709,7 +709,7 @@ func (c *nxCluster) snapshotWorker(h *nxHost) {
 	if h.pipe.save {
 		h.pipe.save = false
 		if req, ok := n.ss.getSaveReq(); ok {
-			if err := w.handle(job{task: req, node: n, instanceID: n.instanceID, shardID: nxShard}); err != nil {
+			if err := w.handle(job{task: req, node: n, shardID: nxShard}); err != nil {
 				c.fail("replica %d: save job error %v", h.id, err)
 			}
 		}
@@ -717,7 +717,7 @@ func (c *nxCluster) snapshotWorker(h *nxHost) {
 	if h.pipe.stream {
 		h.pipe.stream = false
 		if req, sinkFn, ok := n.ss.getStreamReq(); ok {
-			if err := w.handle(job{task: req, node: n, sink: sinkFn, instanceID: n.instanceID, shardID: nxShard}); err != nil {
+			if err := w.handle(job{task: req, node: n, sink: sinkFn, shardID: nxShard}); err != nil {
 				c.fail("replica %d: stream job error %v", h.id, err)
 			}
 			c.streamEnded(h, req.ReplicaID)
@@ -1206,7 +1206,7 @@ func (c *nxCluster) Enabled() []uint32 {
 		if c.used.stops < cfg.Stops {
 			add(nxev(nxStop, id, 0))
 		}
-		if h.ps != nil && c.used.holdJobs < cfg.HoldJobs && !h.ps.held {
+		if h.ps != nil && c.used.holdJobs < cfg.HoldJobs && !h.ps.held && c.holdAllowed(h) {
 			add(nxev(nxHoldJob, id, 0))
 		}
 		if c.used.transfers < cfg.Transfers && vp.IsLeader() {
@@ -1218,6 +1218,21 @@ func (c *nxCluster) Enabled() []uint32 {
 		}
 	}
 	return out
+}
+
+// holdAllowed: when the script releases the held snapshot jobs of a replica
+// ("U<id>"), a job may only be held back before that point - a hold that is
+// never released would not be a fault-free continuation for the liveness
+// oracles of the scenario.
+func (c *nxCluster) holdAllowed(h *nxHost) bool {
+	item := fmt.Sprintf("U%d", h.id)
+	last := -1
+	for i, it := range c.cfg.Script {
+		if it == item {
+			last = i
+		}
+	}
+	return last < 0 || c.spos <= last
 }
 
 // hookCount dry-runs nothing: the number of hook points of a delivery is
